@@ -19,7 +19,7 @@ func init() {
 		Props: []string{"C01", "C04"},
 		Min:   4,
 		Doc: "the receiver's per-file remaining counter counts the unset bits of the completion bitmap: it is initialised to the chunk total, set on resume to total minus CountSet() of the loaded bitmap (clamped), " +
-			"and decremented only where a bit was newly set (MarkCompleteIfUnset returned true) or no bitmap exists; a sidecar is attached to a file's state only on paths that also set the counter (attach-adjusts, F34); any other source (e.g. the highest complete index, which ignores holes) finalises a file with chunks missing",
+			"and decremented only where a bit was newly set (MarkCompleteIfUnset returned true, or the chunk was not yet in the in-memory index set of a file without sidecar) or no bitmap of either kind exists (F42); a sidecar is attached to a file's state only on paths that also set the counter (attach-adjusts, F34); any other source (e.g. the highest complete index, which ignores holes) finalises a file with chunks missing",
 		Run: runRemaining,
 	})
 	Register(&Rule{
@@ -134,6 +134,12 @@ func runRemaining(c *Ctx) {
 		c.MissingAnchor("transfer.recvFileStateMux.remaining")
 		return
 	}
+	hasSeenField := false
+	for i := 0; st != nil && i < st.NumFields(); i++ {
+		if st.Field(i).Name() == "seen" {
+			hasSeenField = true
+		}
+	}
 	k := geomKinds(c)
 	isField := func(info *types.Info, e ast.Expr) bool {
 		sel, ok := ast.Unparen(e).(*ast.SelectorExpr)
@@ -150,7 +156,33 @@ func runRemaining(c *Ctx) {
 			}
 		}
 		if o, nilOnTrue, ok := nilTestSel(g.Info(), e, "sidecar"); ok && o != nil {
-			return "fresh-bit", nilOnTrue, true // no bitmap: the counter is the only record
+			return "no-sidecar", nilOnTrue, true
+		}
+		if o, nilOnTrue, ok := nilTestSel(g.Info(), e, "seen"); ok && o != nil {
+			return "no-seen", nilOnTrue, true
+		}
+		// !x.seen.Get(idx): the chunk was not counted yet (the in-memory index set of a file without sidecar); the engine offers
+		// the atom (the call) with the polarity, or the whole negation
+		seenGet := func(z ast.Expr) bool {
+			call, ok := ast.Unparen(z).(*ast.CallExpr)
+			if !ok {
+				return false
+			}
+			if fi := p.CalleeInfo(g.Info(), call); fi == nil || fi.Name != "transfer.(*Bitmap).Get" {
+				return false
+			}
+			if sel, ok := ast.Unparen(call.Fun).(*ast.SelectorExpr); ok {
+				if s2, ok := ast.Unparen(sel.X).(*ast.SelectorExpr); ok && s2.Sel.Name == "seen" {
+					return true
+				}
+			}
+			return false
+		}
+		if seenGet(e) {
+			return "fresh-bit", false, true
+		}
+		if u, ok := ast.Unparen(e).(*ast.UnaryExpr); ok && u.Op == token.NOT && seenGet(u.X) {
+			return "fresh-bit", true, true
 		}
 		return "", false, false
 	}}}}
@@ -229,7 +261,8 @@ func runRemaining(c *Ctx) {
 						c.Bad(key, s.Pos(), "the remaining-chunk counter is incremented")
 						return true
 					}
-					c.Check(fresh.Passed(f, r, "fresh-bit"), key, s.Pos(), "decremented only for a newly set bit (or without a bitmap)",
+					okDec := fresh.Passed(f, r, "fresh-bit") || (fresh.Passed(f, r, "no-sidecar") && (fresh.Passed(f, r, "no-seen") || !hasSeenField))
+				c.Check(okDec, key, s.Pos(), "decremented only for a newly set bit (or without any bitmap)",
 						"the remaining-chunk counter is decremented on a path where the chunk's bit was not newly set: a duplicate chunk is counted twice and the file is finalised with another chunk missing")
 				}
 				return true
